@@ -6,6 +6,7 @@ use std::collections::{BTreeMap, BTreeSet};
 use std::io::Write;
 use std::process::{Command, Stdio};
 
+pub mod c03;
 pub mod c07;
 pub mod c13;
 pub mod c14;
@@ -315,6 +316,7 @@ pub fn main() {
     silence_panics();
     let report = match opts.property.as_str() {
         "C01" | "C11" | "C12" => prove::run(&opts, &opts.property.clone()),
+        "C03" => c03::run(&opts),
         "C07" => c07::run(&opts),
         "C13" => c13::run(&opts),
         "C14" => c14::run(&opts),
